@@ -32,6 +32,10 @@ def run(tier, replay):
         cj, oj = os.path.join(wd, "cases.json"), os.path.join(wd, "out.json")
         json.dump(cases, open(cj, "w"))
         rc, out = vlib.go_test(wd, "./internal/clients/handlers", OV, "TestC16Replay", env={"VERIF_CASES": cj, "VERIF_OUT": oj}, timeout=1800)
+        if rc != 0 and vlib.died_in_dtail(out) >= 0:
+            i = vlib.died_in_dtail(out)
+            V.violation("the client process died handling a message: " + out[i:i + 100].splitlines()[0], {"output": out[i:i + 1500]})
+            return V.finish({"states": 0, "transitions": 0, "traces_validated_against_impl": 0, "evaluations": 0, "distinct_nontrivial": 0, "rule": "the run ended with the death of the client process", "exhaustive": False, "samples": []}, [])
         if rc != 0 or not os.path.exists(oj):
             raise vlib.Inconclusive("harness failed (a panic outside recover kills it)\n" + out[-2500:])
         res = json.load(open(oj))
@@ -48,6 +52,10 @@ def run(tier, replay):
         aj, ao = os.path.join(wd, "agg.json"), os.path.join(wd, "aggout.json")
         json.dump(agg, open(aj, "w"))
         rc, out = vlib.go_test(wd, "./internal/clients/handlers", OV, "TestC16Agg", env={"VERIF_CASES": aj, "VERIF_OUT": ao}, timeout=600)
+        if rc != 0 and vlib.died_in_dtail(out) >= 0:
+            i = vlib.died_in_dtail(out)
+            V.violation("the client process died handling a message: " + out[i:i + 100].splitlines()[0], {"output": out[i:i + 1500]})
+            return V.finish({"states": 0, "transitions": 0, "traces_validated_against_impl": 0, "evaluations": 0, "distinct_nontrivial": 0, "rule": "the run ended with the death of the client process", "exhaustive": False, "samples": []}, [])
         if rc != 0 or not os.path.exists(ao):
             raise vlib.Inconclusive("aggregate payload harness failed\n" + out[-2500:])
         ares = json.load(open(ao))
@@ -55,6 +63,10 @@ def run(tier, replay):
             V.violation("AGGREGATE payload: " + b["problem"][:200], b)
         to = os.path.join(wd, "table.json")
         rc, out = vlib.go_test(wd, "./internal/clients/handlers", OV, "TestC16Table", env={"VERIF_OUT": to}, timeout=600)
+        if rc != 0 and vlib.died_in_dtail(out) >= 0:
+            i = vlib.died_in_dtail(out)
+            V.violation("the client process died handling a message: " + out[i:i + 100].splitlines()[0], {"output": out[i:i + 1500]})
+            return V.finish({"states": 0, "transitions": 0, "traces_validated_against_impl": 0, "evaluations": 0, "distinct_nontrivial": 0, "rule": "the run ended with the death of the client process", "exhaustive": False, "samples": []}, [])
         if rc != 0 or not os.path.exists(to):
             raise vlib.Inconclusive("result table harness failed\n" + out[-2500:])
         for b in json.load(open(to))["bad"] or []:
@@ -62,6 +74,10 @@ def run(tier, replay):
         so = os.path.join(wd, "sout.json")
         rc, out = vlib.go_test(wd, "./internal/clients/handlers", OV, "TestC16Streams",
                                env={"VERIF_OUT": so, "VERIF_N": 150 if tier == "quick" else 20000}, timeout=1800)
+        if rc != 0 and vlib.died_in_dtail(out) >= 0:
+            i = vlib.died_in_dtail(out)
+            V.violation("the client process died handling a message: " + out[i:i + 100].splitlines()[0], {"output": out[i:i + 1500]})
+            return V.finish({"states": 0, "transitions": 0, "traces_validated_against_impl": 0, "evaluations": 0, "distinct_nontrivial": 0, "rule": "the run ended with the death of the client process", "exhaustive": False, "samples": []}, [])
         if rc != 0 or not os.path.exists(so):
             raise vlib.Inconclusive("stream harness failed\n" + out[-2500:])
         sres = json.load(open(so))
